@@ -31,6 +31,9 @@ PLANS['C06'].append(('pp', W(15000, 400000, batch=500)))
 PLANS['C20'] = [('crt', W(80000, 2000000, batch=500))]
 for _p in ('C01', 'C02', 'C05', 'C06'):
     PLANS[_p].append(('legacy', W(12000, 400000, batch=500)))
+# C07 also has a focused stage: the coordinator with a thread blocked in result()
+# while cancels race the final task, statement-level pre-emption on
+PLANS['C07'] = PLANS['C07'] + [('coord', W(20000, 600000, batch=1000))]
 PLANS['C17'] = [('coord', W(150000, 5000000, batch=1000)),
                 ('world', W(6000, 200000, gen_prop='C17'))]
 
